@@ -28,13 +28,13 @@ fn c10_bit_unpack_eta2() {
     let r = bit_unpack(&v, 2, 2);
     match r {
         Ok(w) => {
-            assert!(good, "C10: accepted a section with a field > 2*eta");
+            kani::assert(good, "C10: accepted a section with a field > 2*eta");
             assert!(w.0[i] as i64 == 2 - spec::field(&v, 3, i));
             kani::cover!(w.0[i] == -2);
             core::mem::forget(w);
         }
         Err(_) => {
-            assert!(!good, "C10: rejected a section with all fields in range");
+            kani::assert(!good, "C10: rejected a section with all fields in range");
             kani::cover!(true);
         }
     }
@@ -53,13 +53,13 @@ fn c10_bit_unpack_eta4() {
     let r = bit_unpack(&v, 4, 4);
     match r {
         Ok(w) => {
-            assert!(good, "C10: accepted a section with a field > 2*eta");
+            kani::assert(good, "C10: accepted a section with a field > 2*eta");
             assert!(w.0[i] as i64 == 4 - spec::field(&v, 4, i));
             kani::cover!(w.0[i] == -4);
             core::mem::forget(w);
         }
         Err(_) => {
-            assert!(!good, "C10: rejected a section with all fields in range");
+            kani::assert(!good, "C10: rejected a section with all fields in range");
             kani::cover!(true);
         }
     }
